@@ -351,4 +351,460 @@ theorem Tr.un_inv {c : Cfg} {op : String} {e : PExpr} {v : CVal} (h : Tr c (.un 
         subst h2
         exact ⟨ev, ⟨e', he, h3⟩, rfl⟩
 
+
+/-! ### lemmas used by the property theorems (all generic in the configuration) -/
+
+theorem findKnown_mem {t : List Row} {env : Env} {id : String} {r : Row}
+    (h : findKnown t env id = .ok (some r)) : r ∈ t := by
+  unfold findKnown at h
+  cases hk : fncName (env.get id) id with
+  | error e => simp [hk] at h
+  | ok k =>
+    simp only [hk, Except.ok.injEq] at h
+    exact (lookup_mem h).1
+
+theorem bestType_ok {prio : List (String × Nat)} {a b : String}
+    (ha : (assoc prio a).isSome) (hb : (assoc prio b).isSome) :
+    ∃ best, bestType prio a b = .ok best ∧ (best = a ∨ best = b) := by
+  unfold bestType
+  cases h1 : assoc prio a with
+  | none => simp [h1] at ha
+  | some pa =>
+    cases h2 : assoc prio b with
+    | none => simp [h2] at hb
+    | some pb =>
+      by_cases hlt : pa < pb
+      · exact ⟨b, by simp [hlt], Or.inr rfl⟩
+      · exact ⟨a, by simp [hlt], Or.inl rfl⟩
+
+theorem scoped_leaf_ty {ty : String} (h : (ty == "int" || ty == "double") = true) : ty = "int" ∨ ty = "double" := by
+  simpa using h
+
+theorem bestType_int_double {c : Cfg} (hc : CfgOK c = true) {a b : String}
+    (ha : a = "int" ∨ a = "double") (hb : b = "int" ∨ b = "double") :
+    bestType c.prio a b = .ok (if a = "int" ∧ b = "int" then "int" else "double") := by
+  simp only [CfgOK, Bool.and_eq_true] at hc
+  obtain ⟨_, hp⟩ := hc
+  cases hi : assoc c.prio "int" with
+  | none => simp [hi] at hp
+  | some pi =>
+    cases hd : assoc c.prio "double" with
+    | none => simp [hi, hd] at hp
+    | some pd =>
+      simp only [hi, hd, decide_eq_true_eq] at hp
+      rcases ha with rfl | rfl <;> rcases hb with rfl | rfl <;> simp [bestType, hi, hd, hp] <;> omega
+
+theorem cfgOK_ops {c : Cfg} (hc : CfgOK c = true) :
+    assoc c.binOps "Add" = some "+" ∧ assoc c.binOps "Sub" = some "-" ∧ assoc c.binOps "Mult" = some "*" ∧
+    assoc c.binOps "Div" = some "/" ∧ assoc c.binOps "Pow" = none ∧
+    assoc c.unOps "USub" = some "-" ∧ assoc c.unOps "UAdd" = some "+" := by
+  simp only [CfgOK, Bool.and_eq_true, beq_iff_eq] at hc
+  obtain ⟨⟨⟨⟨⟨⟨⟨h1, h2⟩, h3⟩, h4⟩, h5⟩, h6⟩, h7⟩, _⟩ := hc
+  exact ⟨h1, h2, h3, h4, h5, h6, h7⟩
+
+theorem ctype_of_ty {ty : String} (h : ty = "int" ∨ ty = "double") :
+    (ty = "int" → CT.ofName ty = .int) ∧ (ty = "double" → CT.ofName ty = .dbl) :=
+  ⟨fun h => by subst h; rfl, fun h => by subst h; rfl⟩
+
+theorem ctype_bin (s : String) (l r : CExpr) : (CExpr.bin s l r).ctype = CT.join l.ctype r.ctype := by
+  simp [CExpr.ctype]
+
+theorem ctype_cast (ty : String) (e : CExpr) : (CExpr.cast ty e).ctype = CT.ofName ty := by
+  simp [CExpr.ctype]
+
+/-- the statement proved of one expression -/
+def Faithful (c : Cfg) (e : PExpr) (v : CVal) : Prop :=
+  Tr c e v ∧ csym v.term = psym e ∧ CT.ofName v.ty = v.term.ctype ∧ (v.ty = "int" ∨ v.ty = "double")
+
+/-- one non-division arithmetic operator -/
+theorem faithful_bin_plain {c : Cfg} (hc : CfgOK c = true) {op sym : String} {l r : PExpr} {lv rv : CVal}
+    (hs : assoc c.binOps op = some sym) (hnd : op ≠ "Div") (hnp : op ≠ "Pow")
+    (hmean : ∀ a b : CT, cArith sym a b = pArith op)
+    (hl : Faithful c l lv) (hr : Faithful c r rv) : ∃ v, Faithful c (.bin op l r) v := by
+  obtain ⟨hl1, hl2, hl3, hl4⟩ := hl
+  obtain ⟨hr1, hr2, hr3, hr4⟩ := hr
+  have hb := bestType_int_double hc hl4 hr4
+  refine ⟨_, Tr.bin hl1 hr1 hs hb, ?_, ?_, ?_⟩
+  · simp only [binVal, hnd, if_false, csym, psym, hnp, hmean, hl2, hr2]
+  · simp only [binVal, hnd, if_false, CExpr.ctype, ← hl3, ← hr3]
+    rcases hl4 with h | h <;> rcases hr4 with h' | h' <;> simp [h, h', CT.ofName, CT.join]
+  · simp only [binVal, hnd, if_false]
+    by_cases h : lv.ty = "int" ∧ rv.ty = "int" <;> simp [h]
+
+theorem findKnown_error {t : List Row} {env : Env} {f : String} {er : TrErr}
+    (h : findKnown t env f = .error er) : er = .attributeError f ∧ env.get f = .noModuleAttr := by
+  unfold findKnown fncName at h
+  cases hb : env.get f with
+  | unbound => simp [hb] at h
+  | inModule m => simp [hb] at h
+  | noModuleAttr => simp only [hb, Except.error.injEq] at h; exact ⟨h.symm, rfl⟩
+
+mutual
+/-- Pass 1 fails only with the `AttributeError` of a called name that python's `eval` binds to an
+object without `__module__`. -/
+theorem resolve_error (c : Cfg) : ∀ (e : PExpr) (er : TrErr), resolve c e = .error er →
+    ∃ f ∈ calledNames e, er = .attributeError f ∧ c.env.get f = .noModuleAttr
+  | .leaf _ _, er, h => by simp [resolve] at h
+  | .call g args, er, h => by
+    unfold resolve at h
+    cases ha : resolveList c args with
+    | error e' =>
+      simp only [ha, Except.error.injEq] at h
+      subst h
+      obtain ⟨f, hf, h1, h2⟩ := resolveList_error c args _ ha
+      exact ⟨f, by simp [calledNames, hf], h1, h2⟩
+    | ok rs =>
+      simp only [ha] at h
+      cases hk : findKnown c.table c.env g with
+      | error e' =>
+        simp only [hk, Except.error.injEq] at h
+        subst h
+        obtain ⟨h1, h2⟩ := findKnown_error hk
+        exact ⟨g, by simp [calledNames], h1, h2⟩
+      | ok o => cases o <;> simp [hk] at h
+  | .bin op l r, er, h => by
+    unfold resolve at h
+    cases hl : resolve c l with
+    | error e' =>
+      simp only [hl, Except.error.injEq] at h
+      subst h
+      obtain ⟨f, hf, h1, h2⟩ := resolve_error c l _ hl
+      exact ⟨f, by simp [calledNames, hf], h1, h2⟩
+    | ok l' =>
+      simp only [hl] at h
+      cases hr : resolve c r with
+      | error e' =>
+        simp only [hr, Except.error.injEq] at h
+        subst h
+        obtain ⟨f, hf, h1, h2⟩ := resolve_error c r _ hr
+        exact ⟨f, by simp [calledNames, hf], h1, h2⟩
+      | ok r' => simp [hr] at h
+  | .un op e, er, h => by
+    unfold resolve at h
+    cases he : resolve c e with
+    | error e' =>
+      simp only [he, Except.error.injEq] at h
+      subst h
+      obtain ⟨f, hf, h1, h2⟩ := resolve_error c e _ he
+      exact ⟨f, by simp [calledNames, hf], h1, h2⟩
+    | ok e' => simp [he] at h
+theorem resolveList_error (c : Cfg) : ∀ (es : List PExpr) (er : TrErr), resolveList c es = .error er →
+    ∃ f ∈ calledNamesList es, er = .attributeError f ∧ c.env.get f = .noModuleAttr
+  | [], er, h => by simp [resolveList] at h
+  | a :: as, er, h => by
+    unfold resolveList at h
+    cases ha : resolve c a with
+    | error e' =>
+      simp only [ha, Except.error.injEq] at h
+      subst h
+      obtain ⟨f, hf, h1, h2⟩ := resolve_error c a _ ha
+      exact ⟨f, by simp [calledNamesList, hf], h1, h2⟩
+    | ok a' =>
+      simp only [ha] at h
+      cases hs : resolveList c as with
+      | error e' =>
+        simp only [hs, Except.error.injEq] at h
+        subst h
+        obtain ⟨f, hf, h1, h2⟩ := resolveList_error c as _ hs
+        exact ⟨f, by simp [calledNamesList, hf], h1, h2⟩
+      | ok as' => simp [hs] at h
+end
+
+mutual
+/-- Pass 2 says "Do not know how to call `f`" only for a call of `f` that pass 1 left alone. -/
+theorem unknownCall_src (c : Cfg) : ∀ (e : PExpr) (q : RExpr) (f : String), resolve c e = .ok q →
+    emit c q = .error (.unknownCall f) → f ∈ calledNames e ∧ findKnown c.table c.env f = .ok none
+  | .leaf _ _, q, f, h1, h2 => by
+    simp only [resolve, Except.ok.injEq] at h1
+    subst h1
+    simp [emit] at h2
+  | .call g args, q, f, h1, h2 => by
+    unfold resolve at h1
+    cases ha : resolveList c args with
+    | error e' => simp [ha] at h1
+    | ok rs =>
+      simp only [ha] at h1
+      cases hk : findKnown c.table c.env g with
+      | error e' => simp [hk] at h1
+      | ok o =>
+        cases o with
+        | some r =>
+          simp only [hk, Except.ok.injEq] at h1
+          subst h1
+          unfold emit at h2
+          cases he : emitList c rs with
+          | error e' =>
+            simp only [he, Except.error.injEq] at h2
+            subst h2
+            obtain ⟨hf, hn⟩ := unknownCall_srcList c args rs f ha he
+            exact ⟨by simp [calledNames, hf], hn⟩
+          | ok p => simp [he] at h2
+        | none =>
+          simp only [hk, Except.ok.injEq] at h1
+          subst h1
+          unfold emit at h2
+          cases he : emitList c rs with
+          | error e' =>
+            simp only [he, Except.error.injEq] at h2
+            subst h2
+            obtain ⟨hf, hn⟩ := unknownCall_srcList c args rs f ha he
+            exact ⟨by simp [calledNames, hf], hn⟩
+          | ok p =>
+            simp only [he, Except.error.injEq, TrErr.unknownCall.injEq] at h2
+            subst h2
+            exact ⟨by simp [calledNames], hk⟩
+  | .bin op l r, q, f, h1, h2 => by
+    unfold resolve at h1
+    cases hl : resolve c l with
+    | error e' => simp [hl] at h1
+    | ok l' =>
+      simp only [hl] at h1
+      cases hr : resolve c r with
+      | error e' => simp [hr] at h1
+      | ok r' =>
+        simp only [hr, Except.ok.injEq] at h1
+        subst h1
+        have left : ∀ {x}, emit c l' = .error x → x = .unknownCall f → f ∈ calledNames (.bin op l r) ∧ findKnown c.table c.env f = .ok none := by
+          intro x hx hxe
+          subst hxe
+          obtain ⟨hf, hn⟩ := unknownCall_src c l l' f hl hx
+          exact ⟨by simp [calledNames, hf], hn⟩
+        have right : ∀ {x}, emit c r' = .error x → x = .unknownCall f → f ∈ calledNames (.bin op l r) ∧ findKnown c.table c.env f = .ok none := by
+          intro x hx hxe
+          subst hxe
+          obtain ⟨hf, hn⟩ := unknownCall_src c r r' f hr hx
+          exact ⟨by simp [calledNames, hf], hn⟩
+        unfold emit at h2
+        cases hs : assoc c.binOps op with
+        | none =>
+          simp only [hs] at h2
+          by_cases hp : op = "Pow"
+          · simp only [hp, if_true] at h2
+            cases h3 : emit c l' with
+            | error x => simp only [h3, Except.error.injEq] at h2; exact left h3 h2
+            | ok lv =>
+              simp only [h3] at h2
+              cases h4 : emit c r' with
+              | error x => simp only [h4, Except.error.injEq] at h2; exact right h4 h2
+              | ok rv => simp [h4] at h2
+          · simp [hp] at h2
+        | some sym =>
+          simp only [hs] at h2
+          cases h3 : emit c l' with
+          | error x => simp only [h3, Except.error.injEq] at h2; exact left h3 h2
+          | ok lv =>
+            simp only [h3] at h2
+            cases h4 : emit c r' with
+            | error x => simp only [h4, Except.error.injEq] at h2; exact right h4 h2
+            | ok rv =>
+              simp only [h4] at h2
+              unfold bestType at h2
+              cases hpl : assoc c.prio lv.ty with
+              | none => simp [hpl] at h2
+              | some pl =>
+                cases hpr : assoc c.prio rv.ty with
+                | none => simp [hpl, hpr] at h2
+                | some pr =>
+                  simp only [hpl, hpr] at h2
+                  by_cases hd : op = "Div"
+                  · by_cases hi : (if pl < pr then rv.ty else lv.ty) = "int" <;> simp [hd, hi] at h2
+                  · simp [hd] at h2
+  | .un op e, q, f, h1, h2 => by
+    unfold resolve at h1
+    cases he : resolve c e with
+    | error e' => simp [he] at h1
+    | ok e' =>
+      simp only [he, Except.ok.injEq] at h1
+      subst h1
+      unfold emit at h2
+      cases hs : assoc c.unOps op with
+      | none => simp [hs] at h2
+      | some sym =>
+        simp only [hs] at h2
+        cases h3 : emit c e' with
+        | error x =>
+          simp only [h3, Except.error.injEq] at h2
+          subst h2
+          obtain ⟨hf, hn⟩ := unknownCall_src c e e' f he h3
+          exact ⟨by simp [calledNames, hf], hn⟩
+        | ok v => simp [h3] at h2
+theorem unknownCall_srcList (c : Cfg) : ∀ (es : List PExpr) (rs : List RExpr) (f : String), resolveList c es = .ok rs →
+    emitList c rs = .error (.unknownCall f) → f ∈ calledNamesList es ∧ findKnown c.table c.env f = .ok none
+  | [], rs, f, h1, h2 => by
+    simp only [resolveList, Except.ok.injEq] at h1
+    subst h1
+    simp [emitList] at h2
+  | a :: as, rs, f, h1, h2 => by
+    unfold resolveList at h1
+    cases ha : resolve c a with
+    | error e' => simp [ha] at h1
+    | ok a' =>
+      simp only [ha] at h1
+      cases hs : resolveList c as with
+      | error e' => simp [hs] at h1
+      | ok as' =>
+        simp only [hs, Except.ok.injEq] at h1
+        subst h1
+        unfold emitList at h2
+        cases h3 : emit c a' with
+        | error x =>
+          simp only [h3, Except.error.injEq] at h2
+          subst h2
+          obtain ⟨hf, hn⟩ := unknownCall_src c a a' f ha h3
+          exact ⟨by simp [calledNamesList, hf], hn⟩
+        | ok v =>
+          simp only [h3] at h2
+          cases h4 : emitList c as' with
+          | error x =>
+            simp only [h4, Except.error.injEq] at h2
+            subst h2
+            obtain ⟨hf, hn⟩ := unknownCall_srcList c as as' f hs h4
+            exact ⟨by simp [calledNamesList, hf], hn⟩
+          | ok p => simp [h4] at h2
+end
+
+def TrErr.isAttr : TrErr → Bool
+  | .attributeError _ => true
+  | _ => false
+
+mutual
+/-- pass 2 never raises `AttributeError` -/
+theorem emit_noattr (c : Cfg) : ∀ (q : RExpr) (er : TrErr), emit c q = .error er → er.isAttr = false
+  | .leaf _ _, er, h => by simp [emit] at h
+  | .fcall r args, er, h => by
+    unfold emit at h
+    cases he : emitList c args with
+    | error x => simp only [he, Except.error.injEq] at h; subst h; exact emitList_noattr c args x he
+    | ok p => simp [he] at h
+  | .ucall g args, er, h => by
+    unfold emit at h
+    cases he : emitList c args with
+    | error x => simp only [he, Except.error.injEq] at h; subst h; exact emitList_noattr c args x he
+    | ok p => simp only [he, Except.error.injEq] at h; subst h; rfl
+  | .bin op l r, er, h => by
+    unfold emit at h
+    cases hs : assoc c.binOps op with
+    | none =>
+      simp only [hs] at h
+      by_cases hp : op = "Pow"
+      · simp only [hp, if_true] at h
+        cases h3 : emit c l with
+        | error x => simp only [h3, Except.error.injEq] at h; subst h; exact emit_noattr c l x h3
+        | ok lv =>
+          simp only [h3] at h
+          cases h4 : emit c r with
+          | error x => simp only [h4, Except.error.injEq] at h; subst h; exact emit_noattr c r x h4
+          | ok rv => simp [h4] at h
+      · simp only [hp, if_false, Except.error.injEq] at h; subst h; rfl
+    | some sym =>
+      simp only [hs] at h
+      cases h3 : emit c l with
+      | error x => simp only [h3, Except.error.injEq] at h; subst h; exact emit_noattr c l x h3
+      | ok lv =>
+        simp only [h3] at h
+        cases h4 : emit c r with
+        | error x => simp only [h4, Except.error.injEq] at h; subst h; exact emit_noattr c r x h4
+        | ok rv =>
+          simp only [h4] at h
+          unfold bestType at h
+          cases hpl : assoc c.prio lv.ty with
+          | none => simp only [hpl, Except.error.injEq] at h; subst h; rfl
+          | some pl =>
+            cases hpr : assoc c.prio rv.ty with
+            | none => simp only [hpl, hpr, Except.error.injEq] at h; subst h; rfl
+            | some pr =>
+              simp only [hpl, hpr] at h
+              by_cases hd : op = "Div"
+              · by_cases hi : (if pl < pr then rv.ty else lv.ty) = "int" <;> simp [hd, hi] at h
+              · simp [hd] at h
+  | .un op e, er, h => by
+    unfold emit at h
+    cases hs : assoc c.unOps op with
+    | none => simp only [hs, Except.error.injEq] at h; subst h; rfl
+    | some sym =>
+      simp only [hs] at h
+      cases h3 : emit c e with
+      | error x => simp only [h3, Except.error.injEq] at h; subst h; exact emit_noattr c e x h3
+      | ok v => simp [h3] at h
+theorem emitList_noattr (c : Cfg) : ∀ (qs : List RExpr) (er : TrErr), emitList c qs = .error er → er.isAttr = false
+  | [], er, h => by simp [emitList] at h
+  | a :: as, er, h => by
+    unfold emitList at h
+    cases h3 : emit c a with
+    | error x => simp only [h3, Except.error.injEq] at h; subst h; exact emit_noattr c a x h3
+    | ok v =>
+      simp only [h3] at h
+      cases h4 : emitList c as with
+      | error x => simp only [h4, Except.error.injEq] at h; subst h; exact emitList_noattr c as x h4
+      | ok p => simp [h4] at h
+end
+
+mutual
+theorem scoped_calls (c : Cfg) : ∀ e : PExpr, Scoped c e = true → ∀ f ∈ calledNames e,
+    ∃ r, findKnown c.table c.env f = .ok (some r) ∧ (meaningPy f).isSome ∧ meaningCpp r.cpp = meaningPy f ∧ byValue f = true
+  | .leaf _ _, _, f, hf => by simp [calledNames] at hf
+  | .call g args, h, f, hf => by
+    simp only [Scoped, Bool.and_eq_true] at h
+    obtain ⟨hargs, hcall⟩ := h
+    simp only [calledNames, List.mem_cons] at hf
+    rcases hf with rfl | hf
+    · unfold callOk at hcall
+      cases hk : findKnown c.table c.env f with
+      | error e => simp [hk] at hcall
+      | ok o =>
+        cases o with
+        | none => simp [hk] at hcall
+        | some r =>
+          simp only [hk, Bool.and_eq_true, beq_iff_eq] at hcall
+          exact ⟨r, rfl, hcall.1.1.1.1, hcall.1.1.1.2, hcall.2⟩
+    · exact scoped_callsList c args hargs f hf
+  | .bin _ l r, h, f, hf => by
+    simp only [Scoped, Bool.and_eq_true] at h
+    simp only [calledNames, List.mem_append] at hf
+    rcases hf with hf | hf
+    · exact scoped_calls c l h.1.2 f hf
+    · exact scoped_calls c r h.2 f hf
+  | .un _ e, h, f, hf => by
+    simp only [Scoped, Bool.and_eq_true] at h
+    simp only [calledNames] at hf
+    exact scoped_calls c e h.2 f hf
+theorem scoped_callsList (c : Cfg) : ∀ es : List PExpr, ScopedArgs c es = true → ∀ f ∈ calledNamesList es,
+    ∃ r, findKnown c.table c.env f = .ok (some r) ∧ (meaningPy f).isSome ∧ meaningCpp r.cpp = meaningPy f ∧ byValue f = true
+  | [], _, f, hf => by simp [calledNamesList] at hf
+  | a :: as, h, f, hf => by
+    simp only [ScopedArgs, Bool.and_eq_true] at h
+    simp only [calledNamesList, List.mem_append] at hf
+    rcases hf with hf | hf
+    · cases a with
+      | leaf t ty => simp [calledNames] at hf
+      | call g args => exact scoped_calls c (.call g args) h.1 f hf
+      | bin op l r => exact scoped_calls c (.bin op l r) h.1 f hf
+      | un op e => exact scoped_calls c (.un op e) h.1 f hf
+    · exact scoped_callsList c as h.2 f hf
+end
+
+/-- a row that is the namesake of `f`, declared `double`, and not one of the two C++ functions
+whose result type is not `double` -/
+def plainRow (c : Cfg) (f : String) : Bool :=
+  match findKnown c.table c.env f with
+  | .ok (some r) =>
+    (meaningPy f).isSome && meaningCpp r.cpp == meaningPy f && r.ret == "double" &&
+      r.cpp != "std::abs" && r.cpp != "std::ilogb" && byValue f
+  | _ => false
+
+theorem callOk_of_plainRow {c : Cfg} {f : String} (h : plainRow c f = true) (tys : List CT) :
+    callOk c f tys = true := by
+  unfold plainRow at h
+  unfold callOk
+  cases hk : findKnown c.table c.env f with
+  | error e => simp [hk] at h
+  | ok o =>
+    cases o with
+    | none => simp [hk] at h
+    | some r =>
+      simp only [hk, Bool.and_eq_true, beq_iff_eq, bne_iff_ne, ne_eq] at h
+      obtain ⟨⟨⟨⟨⟨h1, h2⟩, h3⟩, h4⟩, h5⟩, h6⟩ := h
+      simp [h1, h2, h3, cppRet, h4, h5, h6, CT.ofName]
+
+
 end FaxVerif.C12
